@@ -51,7 +51,7 @@ func main() {
 		}
 	}
 	r := hx.NewRand(ctx.Seed)
-	nBushy, nLong := ctx.Scale(60, 1500), ctx.Scale(6, 120)
+	nBushy, nLong := ctx.Scale(150, 2000), ctx.Scale(12, 150)
 	for i := 0; i < nBushy; i++ {
 		runOne(ctx, chainsim.GenBushy(r.Fork(uint64(i)), chainsim.GenOpts{}), true)
 	}
